@@ -17,7 +17,8 @@ PLAN = {
 BUDGET = {"quick": 50, "thorough": 900}
 RULE = (
     "one worker (tasks_limit 1-4) processes 1-8 jobs concurrently, each with a behaviour from the full table: return / raise "
-    "(several Exception classes incl. TimeoutError) / exceed its timeout / payload failing conversion / failing dependency / "
+    "(several Exception classes incl. TimeoutError) / exceed its timeout / synchronous function on a simulated pool thread or "
+    "process that returns, raises or overruns its timeout / payload failing conversion / failing dependency / "
     "eager ack|nack|reject|retry|force_retry|reschedule with or without set_result/set_exception/callbacks; x retries 0-3 x "
     "pre-set already_tried x recurring or not x store_result on/off x Basic/Pydantic/default converter. From the recorder: per "
     "delivery exactly one top-level terminal action, the one the decision table prescribes, with the prescribed retry counter; "
@@ -35,7 +36,8 @@ def gen(rng, broker, tier):
     n = rng.randint(1, 8 if broker == "mem" else 5)
     jobs = []
     for i in range(n):
-        kind = rng.choice(["return", "return", "raise", "raise", "timeout", "bad-args", "dep-fail", "eager", "eager", "bad-return"])
+        kind = rng.choice(["return", "return", "raise", "raise", "timeout", "bad-args", "dep-fail", "eager", "eager", "bad-return",
+                           "sync"])
         retries = rng.choice([0, 0, 1, 2, 3])
         j = {"id": f"j{i}", "retries": retries, "tried0": rng.choice([0, 0, 0, min(1, retries), retries]),
              "store_result": rng.random() < 0.5, "use_bucket": rng.random() < 0.3,
@@ -56,6 +58,20 @@ def gen(rng, broker, tier):
         elif kind == "timeout":
             j["timeout_s"] = 1
             j["beh"] = [{"do": "hang"}] * rng.randint(1, 2) + [{"do": "return"}]
+        elif kind == "sync":
+            # a synchronous actor on a (simulated) pool thread or process: returns, raises, or overruns its time limit - the
+            # function cannot be cancelled, its late return value is nobody's result: an ordinary failure by timeout
+            j["sync"] = rng.choice(["thread", "thread", "process"])
+            what = rng.choice(["return", "raise", "overrun", "overrun"])
+            if what == "overrun":
+                j["timeout_s"] = 1
+                j["beh"] = [{"do": "overrun", "dur_us": rng.choice([1_100_000, 1_600_000, 2_400_000])}] * rng.randint(1, 2) + [
+                    {"do": "return", "dur_us": 1000}]
+            elif what == "raise":
+                j["beh"] = [{"do": "raise", "exc": rng.choice(list(workload.EXC)), "dur_us": rng.choice([0, 500, 20_000])}
+                            for _ in range(rng.randint(1, 3))] + [{"do": "return"}]
+            else:
+                j["beh"] = [{"do": "return", "dur_us": rng.choice([0, 1000, 50_000])}]
         elif kind == "bad-args":
             j["conv"] = rng.choice(["pydantic", "default"])
             j["args"] = {"jid": {"not": "a string"}}
@@ -77,13 +93,20 @@ def gen(rng, broker, tier):
             j["beh"] = [first, {"do": rng.choice(["return", "raise"])}, {"do": "return"}]
             j["msg_dep"] = True
         jobs.append(j)
+    if any(b_.get("do") == "overrun" for j in jobs for b_ in j["beh"]):
+        # while the loop's thread joins an overrunning pool thread nothing else runs - a coroutine actor whose own time limit
+        # is about to expire would see it expire through no fault of its own: no tight limits next to an overrunning function
+        for j in jobs:
+            if j["timeout_s"] in (1.9, 2.5):
+                j["timeout_s"] = 600
     return {"jobs": jobs, "tasks_limit": rng.randint(1, 4),
             "knobs": {"step_cost": rng.choice([0, 0, 1, "rand"]),
                       "net": {"lat_lo": 50, "lat_hi": rng.choice([200, 2000]), "frag_p": rng.choice([0, 0.2])}}}
 
 
 def _actor_name(j):
-    return f"a_{j['conv']}_{'m' if j.get('msg_dep') else 'n'}_{'d' if j.get('dep') else 'n'}"
+    return f"a_{j['conv']}_{'m' if j.get('msg_dep') else 'n'}_{'d' if j.get('dep') else 'n'}" + (
+        "" if not j.get("sync") else "_st" if j["sync"] == "thread" else "_sp")
 
 
 def build_router(state, jobs):
@@ -107,7 +130,9 @@ def build_router(state, jobs):
             return 7
 
         provider.__annotations__ = {"msg": r.MessageDependency, "return": int}
-        if j.get("dep"):
+        if j.get("sync"):
+            fn = workload.make_actor(state, name, sync=True)
+        elif j.get("dep"):
             async def fn(jid, msg, d, inner=inner):
                 return await inner(jid, msg)
 
@@ -118,7 +143,8 @@ def build_router(state, jobs):
         else:
             fn = workload.make_actor(state, name, with_msg_dep=False)
         fn.__name__ = name
-        router.actor(fn, name=name, queue="q0", retry_policy=pol, converter=conv[j["conv"]])
+        router.actor(fn, name=name, queue="q0", retry_policy=pol, converter=conv[j["conv"]],
+                     run_in_process=j.get("sync") == "process")
     return router
 
 
